@@ -193,6 +193,12 @@ def build_sets(work, tier):
     common.write_file(os.path.join(work, "s1", "é.log"), gen.text_log([(E * 1000 + 2500, b"accent")]))
     sets.append(("s1", ["a.log", "sub/日本語のログ.log", "x.wtmp", "é.log"],
                  {"a.log": [(E * 1000 + 1000) * ms, (E * 1000 + 3000) * ms, (E * 1000 + 3000) * ms]}))
+    # S4: lines longer than the printer's write buffer; the widest-named source prints nothing
+    long_msgs = [(E * 1000 + 1000 * i, b"L" * n, [b"c" * m] if m else []) for i, (n, m) in enumerate([(10, 0), (2030, 0), (2031, 0), (2056, 0), (5, 2057), (5000, 3000), (7, 0)])]
+    common.write_file(os.path.join(work, "s4", "long.log"), gen.text_log(long_msgs))
+    common.write_file(os.path.join(work, "s4", "the-widest-name-of-all-prints-nothing.log"), b"no timestamp in here\nnor here\n")
+    common.write_file(os.path.join(work, "s4", "b.log"), gen.text_log([(E * 1000 + 1500, b"short")]))
+    sets.append(("s4", ["long.log", "the-widest-name-of-all-prints-nothing.log", "b.log"], {}))
     # S2: journal + text; name widths 1 and 20
     import samples
     if samples.journal(os.path.join(work, "s2"), "u3", "j.journal"):
